@@ -373,7 +373,7 @@ def run(ctx):
             l_ = v.enclosing(u, (ast.For,))
             app = [n for n in ast.walk(l_) if isinstance(n, ast.Call) and isinstance(n.func, ast.Attribute) and n.func.attr == "append"] if l_ is not None else []
             if app:
-                res.check(len(app) == 1 and norm(app[0].args[0]) == norm(u.targets[0]) and app[0].lineno > u.lineno, "D-STEP", f, norm(app[0]), "append-new", "the appended density is not the one just computed", loc(v.fi, app[0]))
+                res.check(len(app) == 1 and norm(app[0].args[0]) == norm(u.targets[0]) and app[0].lineno >= u.lineno, "D-STEP", f, norm(app[0]), "append-new", "the appended density is not the one just computed", loc(v.fi, app[0]))
             else:
                 res.unknown("D-STEP", f, "density_list.append(s)", "append-new", "the statement that records the new density was not recognised", loc(v.fi, u))
     with res.guard("walk"):
